@@ -1,0 +1,24 @@
+//go:build verif
+
+package xds
+
+import "sync/atomic"
+
+// verifGateFn, when set, is called at named points between critical sections so that a
+// verification harness can park a goroutine there. Only compiled with build tag verif.
+var verifGateFn atomic.Pointer[func(string)]
+
+// SetVerifGate installs (or with nil removes) the gate callback.
+func SetVerifGate(f func(point string)) {
+	if f == nil {
+		verifGateFn.Store(nil)
+		return
+	}
+	verifGateFn.Store(&f)
+}
+
+func verifGate(point string) {
+	if f := verifGateFn.Load(); f != nil {
+		(*f)(point)
+	}
+}
